@@ -1700,6 +1700,7 @@ class Sim(object):
             self.fair_round()
             st = self.mon.quiet_status()
             if st is not None:
+                self.mon.quiet['result'] = st
                 break
             if self.stats['deliver'] > self.msg_cap * 2:
                 self.inconclusive = 'message cap in quiet phase'
